@@ -115,6 +115,15 @@ def make_smoother(rng, n, kinds=("FD", "G", "T", "V"), allow_big=True):
     return s, dict(kind="G", E=E, smear=smear, maxdE=maxdE)
 
 
+def make_smoother_safe(ctx, rng, n, **kw):
+    """an exception while constructing a smoother for a valid grid is a failure of the code, not of the harness"""
+    try:
+        return make_smoother(rng, n, **kw)
+    except Exception as e:  # noqa
+        ctx.fail(f"constructing a smoother for {n} energies raised {type(e).__name__}: {str(e)[:200]}", dict(n=n, kw=kw))
+        return None, dict(kind="V")
+
+
 def rand_shape(rng, ndim, mandatory=None):
     sh = [rng.choice([1, 2, 3, 3, 4, 5, 6, 7]) for _ in range(ndim)]
     return sh
@@ -159,7 +168,7 @@ def corr(ctx):
         shape = rand_shape(rng, ndim)
         axis = rng.randrange(ndim)
         exact = rng.random() < 0.5
-        s, desc = make_smoother(rng, shape[axis], kinds=("T",) if exact else ("FD", "G", "T"))
+        s, desc = make_smoother_safe(ctx, rng, shape[axis], kinds=("T",) if exact else ("FD", "G", "T"))
         if desc["kind"] == "V":
             continue
         cplx = rng.random() < 0.4
@@ -185,7 +194,7 @@ def corr(ctx):
         shape = [rng.choice([2, 3, 4, 5, 6]) for _ in range(nE)] + [3] * rank
         sms, descs = [], []
         for a in range(nE):
-            s, d = make_smoother(rng, shape[a], allow_big=False)
+            s, d = make_smoother_safe(ctx, rng, shape[a], allow_big=False)
             sms.append(s)
             descs.append(d)
         nonvoid = [d for d in descs if d["kind"] != "V"]
@@ -241,18 +250,21 @@ def corr(ctx):
         E = dyadic_grid(rng, n)
         dE = E[1] - E[0]
         maxdE = rng.choice([8, 4, 6, 3, 2.5])
-        if rng.random() < 0.5:
-            # Gaussian, dyadic smear: maxdE*smear/dE is exact in floating point (ties included: exact integers)
-            smear = rng.randint(1, 64) * dE / rng.choice([1, 2, 4, 8, 16])
-            s = GaussianSmoother(E, smear, maxdE=maxdE)
-            q = Fr(maxdE) * F(smear) / F(dE)
-        else:
-            T = rng.uniform(5, 3000)
-            s = FermiDiracSmoother(E, T, maxdE=maxdE)
-            smear = s.smear
-            q = Fr(maxdE) * F(smear) / F(dE)
-            if abs(q - round(q)) < Fr(1, 10 ** 9):
-                continue  # float rounding could decide the truncation: not a model-vs-code case
+        s = None
+        with ctx.attempt("smoother construction", dict(E=E, maxdE=maxdE)):
+            if rng.random() < 0.5:
+                # Gaussian, dyadic smear: maxdE*smear/dE is exact in floating point (ties included: exact integers)
+                smear = rng.randint(1, 64) * dE / rng.choice([1, 2, 4, 8, 16])
+                s = GaussianSmoother(E, smear, maxdE=maxdE)
+            else:
+                T = rng.uniform(5, 3000)
+                s = FermiDiracSmoother(E, T, maxdE=maxdE)
+                smear = s.smear
+        if s is None:
+            continue
+        q = Fr(maxdE) * F(smear) / F(dE)
+        if abs(q - round(q)) < Fr(1, 10 ** 9) and isinstance(s, FermiDiracSmoother):
+            continue  # float rounding could decide the truncation: not a model-vs-code case
         lines.append(f"ne1 {rat(maxdE)} {rat(smear)} {rat(dE)}")
         expect.append(str(int(s.NE1)))
         cases.append(dict(op="NE1", maxdE=maxdE, smear=smear, dE=dE))
@@ -268,9 +280,11 @@ def corr(ctx):
         E = dyadic_grid(rng, n) if hasE else None
         try:
             s = get_smoother(E, smear, modestr)
-            kind = {VoidSmoother: "void", FermiDiracSmoother: "FD", GaussianSmoother: "G"}[type(s)]
+            kind = {VoidSmoother: "void", FermiDiracSmoother: "FD", GaussianSmoother: "G"}.get(type(s), type(s).__name__)
         except ValueError:
             kind = "error"
+        except Exception as e:  # noqa
+            kind = f"raised:{type(e).__name__}"
         lines.append(f"getsmoother {int(hasE)} {n} {'none' if smear is None else rat(smear)} {mode}")
         expect.append(kind)
         cases.append(dict(op="get_smoother", hasE=hasE, n=n, smear=smear, mode=modestr))
@@ -339,7 +353,7 @@ def oracle(ctx, scale):
         ndim = rng.choice([1, 2, 2, 3, 3, 4])
         shape = rand_shape(rng, ndim)
         axis = rng.randrange(ndim)
-        s, desc = make_smoother(rng, shape[axis], kinds=("FD", "G", "T", "FD", "G", "V"))
+        s, desc = make_smoother_safe(ctx, rng, shape[axis], kinds=("FD", "G", "T", "FD", "G", "V"))
         if s is None:
             s = VoidSmoother()
         cplx = rng.random() < 0.4
@@ -403,7 +417,7 @@ def oracle(ctx, scale):
             # (e) two different axes commute
             if ndim >= 2:
                 b = rng.choice([a for a in range(ndim) if a != axis])
-                t, tdesc = make_smoother(rng, shape[b], kinds=("FD", "G", "T"))
+                t, tdesc = make_smoother_safe(ctx, rng, shape[b], kinds=("FD", "G", "T"))
                 if t is not None and tdesc["kind"] != "V":
                     x = s(t(A, axis=b), axis=axis)
                     y = t(s(A, axis=axis), axis=b)
@@ -419,7 +433,7 @@ def oracle(ctx, scale):
         allvoid = rng.random() < 0.12
         sms, descs = [], []
         for a in range(nE):
-            s, d = make_smoother(rng, shape[a], kinds=("V",) if allvoid else ("FD", "G", "T", "V", "FD", "G"))
+            s, d = make_smoother_safe(ctx, rng, shape[a], kinds=("V",) if allvoid else ("FD", "G", "T", "V", "FD", "G"))
             sms.append(s)
             descs.append(d)
         cplx = rng.random() < 0.4
@@ -450,10 +464,8 @@ def oracle(ctx, scale):
             got = res.dataSmooth
             ok, tol = close(got, ref, np.abs(A).max(), width)
             if not ok:
-                which = ""
-                for a in range(nE):   # diagnose: equal to smoothing one axis only?
-                    if close(got, ref_apply(Ms[a], A, a), np.abs(A).max(), width)[0]:
-                        which = f" (it equals smoothing axis {a} only)"
+                only = [a for a in range(nE) if close(got, ref_apply(Ms[a], A, a), np.abs(A).max(), width)[0]]
+                which = f" (it equals smoothing axis {only[0]} only)" if only else ""
                 ctx.fail(f"dataSmooth differs from the composition of all {nE} axis smoothers{which}; "
                          f"max diff {np.abs(got - ref).max():.3e}, tol {tol:.1e}", dict(case, got=got))
                 continue
@@ -488,13 +500,17 @@ def stale_cache_probe(ctx):
     from wannierberri.result import EnergyResult
     from wannierberri.smoother import get_smoother
     E = np.arange(9) / 8.0
-    sm = get_smoother(E, 0.25, "Gaussian")
-    a = EnergyResult(E, np.arange(9.) ** 2, smoothers=[sm])
-    b = EnergyResult(E, np.ones(9), smoothers=[sm])
-    _ = a.dataSmooth
-    a.add(b)
+    try:
+        sm = get_smoother(E, 0.25, "Gaussian")
+        a = EnergyResult(E, np.arange(9.) ** 2, smoothers=[sm])
+        b = EnergyResult(E, np.ones(9), smoothers=[sm])
+        _ = a.dataSmooth
+        a.add(b)
+        stale = np.abs(a.dataSmooth - sm(a.data)).max() > 1e-9
+    except Exception:  # noqa  (construction problems are reported by the main oracle)
+        return
     ctx.case(signature=("stale-cache",), nontrivial=True)
-    if np.abs(a.dataSmooth - sm(a.data)).max() > 1e-9:
+    if stale:
         msg = "dataSmooth read before an in-place EnergyResult.add() is not refreshed afterwards (cached_property)"
         if KF_STALE in ctx.known:
             ctx.fail(msg, dict(E=E, data="arange(9)**2 then add(ones)"), kf=KF_STALE)
